@@ -125,7 +125,12 @@ func c02Release(what string) func(r *rig, name string) {
 					other = true
 				}
 			}
-			if nAcks == 0 && other {
+			r.mu.Lock()
+			restarted := r.gen > 0
+			r.mu.Unlock()
+			// (the recorded finding is the start-up poll of a RESTARTED sender; a running sender that
+			// applies a poll answer to a version it has not sent is a different defect, fixed by 7ca927a)
+			if nAcks == 0 && other && restarted {
 				class = "poll-by-name-confirms-unsent-version"
 			}
 			r.violate(class, "C02: the sender is about to %s %s (content md5 %s), but the receiver holds no validated copy with that hash (final=%v, receive log=%v)\n%s",
